@@ -98,9 +98,9 @@ func preBlock(fw *formatWriter, source []byte, cursor *commonmark.Cursor) (child
 		}
 		return "", true
 	case commonmark.ListKind:
-		if fw.hasWritten && curr.IsTightList() {
-			// Individual list items won't contain a blank line,
-			// so add them beforehand.
+		if fw.hasWritten {
+			// Separate the list from whatever precedes it:
+			// the first item does not start with a blank line of its own.
 			fw.s("\n")
 		}
 		return "", true
